@@ -25,7 +25,7 @@ func init() {
 			"C15.nocreate — OpenIndex opens the file through an openfile hook that clears O_CREATE (constant option evaluated through OpenFile's branches; flag arithmetic of the returned hook); " +
 			"C15.validate — nil data bucket, row-counter length, bitmap-key length and schema/bitmap decode errors are guarded resp. propagated in everything reachable from the open functions and options (= C06.openvalidate); " +
 			"C15.release — every return of the open function with a non-nil error has passed a Close of the database handle on every path, and OpenIndex hands the handle to the open function or closes it on every path after a successful bbolt.Open; " +
-			"C15.closeidem — Index.Close calls DB.Close only on a handle known to be non-nil and stores nil into the handle field on that path, so a second Close is a no-op. " +
+			"C15.closeidem — Index.Close calls DB.Close only on a handle known to be non-nil and stores nil into the handle field on that path, so a second Close is a no-op; C15.txend — every transaction begun explicitly (DB.Begin) in code reachable from the open functions and options is rolled back or committed on every path after the successful Begin (a leaked transaction makes the db.Close() of a failing open wait forever). " +
 			"NOT decided: which byte patterns make gob/roaring decoding fail, and that roaring's FromBuffer never panics on arbitrary bytes (trusted); panics inside bbolt itself on structurally invalid files.",
 		assumptions: []string{"bbolt.DB.Close releases the flock", "roaring FromBuffer / gob Decode return errors rather than panic on malformed input", "go/ssa CFG, dominance"},
 	})
@@ -488,6 +488,7 @@ func runC15(c *Ctx) {
 	openValidateRule(c, "C15.validate")
 	releaseRule(c, "C15.release")
 	closeIdemRule(c, "C15.closeidem")
+	txEndRule(c, "C15.txend", openReach(c))
 	c.r.expect("C15.validate", 5)
 	c.r.expect("C15.release", 2)
 }
@@ -625,4 +626,96 @@ func closeIdemRule(c *Ctx, rule string) {
 		}
 		c.r.ok(rule, key, "guarded by a nil test of the handle; handle reset to nil", c.w.ipos(cl))
 	}
+}
+
+// txEndRule: every transaction that code reachable from the given entry points begins explicitly (DB.Begin) is ended
+// (Rollback or Commit, directly, deferred, or in a deferred closure on all of the closure's paths) on every path from the
+// successful Begin to a return. bbolt's DB.Close waits for open transactions: a leaked read transaction makes the
+// db.Close() of a failing open block forever, so the open neither returns nor releases the file. Managed transactions
+// (DB.View / DB.Update) end themselves and are not instances.
+func txEndRule(c *Ctx, rule string, re *Reach) {
+	n := 0
+	for _, fn := range re.sorted() {
+		var begins []*ssa.Call
+		allInstrs(fn, func(i ssa.Instruction) {
+			if call, ok := i.(*ssa.Call); ok && calleeName(&call.Call) == "(*go.etcd.io/bbolt.DB).Begin" {
+				begins = append(begins, call)
+			}
+		})
+		for k, call := range begins {
+			n++
+			key := fmt.Sprintf("%s: Begin#%d", safeFname(fn), k+1)
+			tx, errv := resultValue(call, 0), resultValue(call, 1)
+			if tx == nil {
+				c.r.bad(rule, key, "the transaction returned by DB.Begin is dropped: it can never be ended", []string{c.w.ipos(call)})
+				continue
+			}
+			// handed over to a field: the owner must end it; not decidable here
+			handed := false
+			for _, r := range referrers(tx) {
+				if st, ok := r.(*ssa.Store); ok && st.Val == tx {
+					if _, isF := st.Addr.(*ssa.FieldAddr); isF {
+						handed = true
+					}
+				}
+			}
+			if handed {
+				c.r.undecided(rule, key, "the transaction is stored in a struct field on the open path; who ends it is not established", c.w.ipos(call))
+				continue
+			}
+			single := len(begins) == 1
+			isEnd := func(i ssa.Instruction) bool {
+				cc := callCommon(i)
+				if cc == nil {
+					return false
+				}
+				if _, isGo := i.(*ssa.Go); isGo {
+					return false
+				}
+				name := calleeName(cc)
+				if name != "(*go.etcd.io/bbolt.Tx).Rollback" && name != "(*go.etcd.io/bbolt.Tx).Commit" {
+					return false
+				}
+				a := peel(cc.Args[0])
+				if a == tx || single {
+					return true
+				}
+				if fv, ok := a.(*ssa.FreeVar); ok {
+					if b := freeVarBinding(fv); b != nil {
+						if vals, ok := cellValues(b); ok {
+							for _, v := range vals {
+								if v == tx {
+									return true
+								}
+							}
+						}
+					}
+				}
+				return false
+			}
+			beginFailed := func(pred, succ *ssa.BasicBlock) bool {
+				iff, ok := pred.Instrs[len(pred.Instrs)-1].(*ssa.If)
+				if !ok || errv == nil || len(pred.Succs) != 2 {
+					return false
+				}
+				for _, cm := range trueCmps(fact{iff.Cond, pred.Succs[0] == succ}) {
+					if cm.Op == token.NEQ && ((cm.X == errv && isNilConst(cm.Y)) || (cm.Y == errv && isNilConst(cm.X))) {
+						return true
+					}
+				}
+				return false
+			}
+			isRet := func(x ssa.Instruction) bool { _, r := x.(*ssa.Return); return r }
+			if p := c.fc.pathFrom(fn, call, isRet, c.fc.ipAvoid(isEnd), beginFailed); p != nil {
+				c.r.bad(rule, key, "a transaction begun while opening an index is not ended on some path to a return: DB.Close waits for open transactions, so the failing open blocks instead of returning its error and never releases the file",
+					[]string{c.w.ipos(p[len(p)-1])}, c.fc.witnessStrings(p)...)
+			} else {
+				c.r.ok(rule, key, "ended (Rollback/Commit) on every path after a successful Begin", c.w.ipos(call))
+			}
+		}
+	}
+	if n == 0 {
+		c.r.ok(rule, "<none>", "the open path begins no explicit transaction (only managed DB.View)")
+	}
+	c.r.Stats["explicit_begins_on_open_path"] = n
 }
